@@ -160,4 +160,21 @@ def productSpec : List (Name × List Str) → List (List (Name × Str))
   | [] => [[]]
   | (k, items) :: rows => items.flatMap (fun it => (productSpec rows).map (fun comb => (k, it) :: comb))
 
+/-! ### loop entries (`templater.ReplaceWithExtra`)
+
+A `for:` entry is rendered with the variables of the task plus the loop's own bindings
+(`ITEM` or the `as:` name, `KEY` for maps); the loop's bindings come FIRST: a variable of the
+same name that is visible in the task (task / global / call variable, environment) does not
+hide the element. -/
+
+/-- value of `x` while rendering a loop entry -/
+def lookupExtra (extra vars : List (Name × Str)) (x : Name) : Option Str :=
+  match extra.lookup x with
+  | some v => some v
+  | none => vars.lookup x
+
+/-- what each iteration of `for: items` (loop variable `lv`) sees for the names `refs` -/
+def loopRender (lv : Name) (vars : List (Name × Str)) (items : List Str) (refs : List Name) : List (List (Option Str)) :=
+  items.map (fun it => refs.map (lookupExtra [(lv, it)] vars))
+
 end TaskModel.Vars
